@@ -280,7 +280,7 @@ func (f *Flow) normCond(e ast.Expr, depth int) ast.Expr {
 		if n != 1 || def == nil || def.End() >= x.Pos() {
 			return e
 		}
-		if tv, ok := f.Info.Types[def]; !ok || tv.Value != nil {
+		if _, ok := f.Info.Types[def]; !ok {
 			return e
 		}
 		if tv := f.Info.Types[def]; !isBoolType(tv.Type) {
